@@ -187,6 +187,8 @@ pub struct OpEvent {
     pub end: u64,
     pub result: String,
     pub executed: bool,
+    /// predicate consultations (cache_if / invalidate_on) this thread made during the operation
+    pub consults: Vec<Ev>,
 }
 
 static SEQ: AtomicU64 = AtomicU64::new(0);
@@ -362,12 +364,16 @@ impl Prepared {
                     let log_before = l1::log_len();
                     let result = perform(op, &l0);
                     let me = vsched::current_thread();
-                    let executed = {
+                    let (executed, consults) = {
                         let g = l1::LOG.lock().unwrap();
-                        g[log_before.min(g.len())..].iter().any(|e| matches!(e, Ev::Exec { thread, .. } if *thread == me))
+                        let mine = &g[log_before.min(g.len())..];
+                        (
+                            mine.iter().any(|e| matches!(e, Ev::Exec { thread, .. } if *thread == me)),
+                            mine.iter().filter(|e| matches!(e, Ev::CacheIf { thread, .. } | Ev::InvalOn { thread, .. } if *thread == me)).cloned().collect::<Vec<Ev>>(),
+                        )
                     };
                     let end = SEQ.fetch_add(1, Ordering::SeqCst);
-                    events.lock().unwrap().push(OpEvent { thread: t, idx, op: op.clone(), start, end, result, executed });
+                    events.lock().unwrap().push(OpEvent { thread: t, idx, op: op.clone(), start, end, result, executed, consults });
                 }
             }));
         }
@@ -497,6 +503,94 @@ pub fn check_execution(p: &Prepared, out: &Outcome) -> Quiescent {
                 if earlier_ok {
                     fs.push(TFinding { property: "C09", monitor: format!("{flav}/ok-not-reused-under-concurrency"), detail: format!("thread {} executed {}({k}) although a call that returned Ok had already completed", e.thread, f.fn_name) });
                 }
+            }
+        }
+    }
+    // ---- C10 (under concurrency): one consultation per execution, with that call's key and result; the key is
+    // cached at quiescence iff some execution was accepted; after an accepted call returned nobody executes
+    for f in &p.funcs {
+        if !f.has_cache_if || f.has_inval_on || f.is_result || f.flavour == Flavour::Thread || f.limit.is_some() || f.ttl.is_some() || f.mem.is_some() || evicting {
+            continue;
+        }
+        let listed: BTreeSet<String> = l1::list_keys(f.name).unwrap_or_default().into_iter().collect();
+        let calls: Vec<&OpEvent> = events.iter().filter(|e| matches!(&e.op, TOp::Call { f: ff, .. } if *ff == f.id)).collect();
+        let setup_keys: BTreeSet<u32> = d.setup.iter().filter_map(|s| if let SOp::Op(TOp::Call { f: ff, k }) = s { if *ff == f.id { Some(*k) } else { None } } else { None }).collect();
+        let accepted = |e: &OpEvent| e.consults.iter().any(|c| matches!(c, Ev::CacheIf { verdict: true, .. }));
+        let mut keys: BTreeSet<u32> = BTreeSet::new();
+        for e in &calls {
+            if let TOp::Call { k, .. } = &e.op {
+                keys.insert(*k);
+                let ci: Vec<&Ev> = e.consults.iter().filter(|c| matches!(c, Ev::CacheIf { .. })).collect();
+                if ci.len() != usize::from(e.executed) {
+                    fs.push(TFinding { property: "C10", monitor: format!("{flav}/consultation-count-under-concurrency"), detail: format!("thread {} call {}({k}): cache_if consulted {} times, body ran: {}", e.thread, f.fn_name, ci.len(), e.executed) });
+                }
+                if let Some(Ev::CacheIf { key, val, .. }) = ci.first() {
+                    if *key != k.to_string() || *val != format!("{:?}", e.result) {
+                        fs.push(TFinding { property: "C10", monitor: format!("{flav}/consulted-with-wrong-arguments-under-concurrency"), detail: format!("thread {} call {}({k}) = {}: cache_if saw ({key}, {val})", e.thread, f.fn_name, e.result) });
+                    }
+                }
+            }
+        }
+        for k in keys {
+            let of_key: Vec<&&OpEvent> = calls.iter().filter(|e| matches!(&e.op, TOp::Call { k: kk, .. } if *kk == k)).collect();
+            let some_accepted = setup_keys.contains(&k) || of_key.iter().any(|e| accepted(e));
+            let is_listed = listed.contains(&k.to_string());
+            if some_accepted != is_listed {
+                let mon = if some_accepted { "accepted-result-lost-under-concurrency" } else { "rejected-result-stored-under-concurrency" };
+                fs.push(TFinding { property: "C10", monitor: format!("{flav}/{mon}"), detail: format!("{}({k}): some execution accepted: {some_accepted}; cached once every caller has returned: {is_listed}", f.fn_name) });
+            }
+            for e in of_key.iter().filter(|e| e.executed) {
+                if setup_keys.contains(&k) || of_key.iter().any(|o| accepted(o) && o.end < e.start) {
+                    fs.push(TFinding { property: "C10", monitor: format!("{flav}/accepted-result-not-reused-under-concurrency"), detail: format!("thread {} executed {}({k}) although a call whose result was accepted had already returned", e.thread, f.fn_name) });
+                }
+            }
+        }
+    }
+    // ---- C11 (under concurrency): every hit is shown to invalidate_on; "stale" means the body runs, "valid" means
+    // exactly the value that was shown is returned
+    for f in &p.funcs {
+        if !f.has_inval_on || f.has_cache_if || f.is_result || f.flavour == Flavour::Thread || f.limit.is_some() || f.ttl.is_some() || f.mem.is_some() || evicting {
+            continue;
+        }
+        let calls: Vec<&OpEvent> = events.iter().filter(|e| matches!(&e.op, TOp::Call { f: ff, .. } if *ff == f.id)).collect();
+        let setup_keys: BTreeSet<u32> = d.setup.iter().filter_map(|s| if let SOp::Op(TOp::Call { f: ff, k }) = s { if *ff == f.id { Some(*k) } else { None } } else { None }).collect();
+        for e in &calls {
+            if let TOp::Call { k, .. } = &e.op {
+                let io: Vec<&Ev> = e.consults.iter().filter(|c| matches!(c, Ev::InvalOn { .. })).collect();
+                if io.len() > 1 {
+                    fs.push(TFinding { property: "C11", monitor: format!("{flav}/consulted-twice-under-concurrency"), detail: format!("thread {} call {}({k}): invalidate_on consulted {} times", e.thread, f.fn_name, io.len()) });
+                }
+                match io.first() {
+                    Some(Ev::InvalOn { key, val, verdict, .. }) => {
+                        if *key != k.to_string() {
+                            fs.push(TFinding { property: "C11", monitor: format!("{flav}/consulted-with-wrong-key-under-concurrency"), detail: format!("thread {} call {}({k}): invalidate_on saw key {key}", e.thread, f.fn_name) });
+                        }
+                        if *verdict && !e.executed {
+                            fs.push(TFinding { property: "C11", monitor: format!("{flav}/stale-entry-served-under-concurrency"), detail: format!("thread {} call {}({k}): the check called {val} stale and the body did not run (returned {})", e.thread, f.fn_name, e.result) });
+                        }
+                        if !*verdict && (e.executed || *val != format!("{:?}", e.result)) {
+                            fs.push(TFinding { property: "C11", monitor: format!("{flav}/valid-entry-not-served-under-concurrency"), detail: format!("thread {} call {}({k}): the check called {val} valid; body ran: {}, returned {}", e.thread, f.fn_name, e.executed, e.result) });
+                        }
+                    }
+                    _ => {
+                        if !e.executed {
+                            fs.push(TFinding { property: "C11", monitor: format!("{flav}/served-without-consulting-under-concurrency"), detail: format!("thread {} call {}({k}) returned {} from the cache without showing it to invalidate_on", e.thread, f.fn_name, e.result) });
+                        } else if setup_keys.contains(k) || calls.iter().any(|o| matches!(&o.op, TOp::Call { k: kk, .. } if kk == k) && o.executed && o.end < e.start) {
+                            fs.push(TFinding { property: "C11", monitor: format!("{flav}/stored-entry-ignored-under-concurrency"), detail: format!("thread {} executed {}({k}) without consulting invalidate_on although an entry had been stored before the call started", e.thread, f.fn_name) });
+                        }
+                    }
+                }
+            }
+        }
+        // afterwards the cache still works: a call that finds its entry valid is served
+        for k in calls.iter().filter_map(|e| if let TOp::Call { k, .. } = &e.op { Some(*k) } else { None }).collect::<BTreeSet<u32>>() {
+            l1::log_take();
+            let r = (f.call)(k);
+            let evs = l1::log_take();
+            let executed = evs.iter().any(|e| matches!(e, Ev::Exec { .. }));
+            let shown = evs.iter().find_map(|e| if let Ev::InvalOn { val, .. } = e { Some(val.clone()) } else { None });
+            if executed || shown.as_deref() != Some(&format!("{:?}", r.render())) {
+                fs.push(TFinding { property: "C11", monitor: format!("{flav}/refreshed-entry-not-served-at-quiescence"), detail: format!("probe {}({k}) after every caller returned: body ran: {executed}, shown to invalidate_on: {shown:?}, returned {}", f.fn_name, r.render()) });
             }
         }
     }
@@ -672,10 +766,26 @@ pub fn check_execution(p: &Prepared, out: &Outcome) -> Quiescent {
         let untracked: Vec<&String> = s.store.keys().filter(|k| !q.contains(k)).collect();
         if !untracked.is_empty() {
             fs.push(TFinding { property: "C18", monitor: format!("{flav}/{pol}/stored-but-untracked"), detail: format!("store holds {:?} that the order queue {:?} does not know", untracked, s.order) });
+
         }
         if let Some(n) = c.limit {
             if s.store.len() > n {
                 fs.push(TFinding { property: "C18", monitor: format!("{flav}/{pol}/over-limit-at-quiescence"), detail: format!("store holds {} entries with limit {n}", s.store.len()) });
+                fs.push(TFinding { property: "C04", monitor: format!("{flav}/{pol}/over-limit-after-concurrent-operations"), detail: format!("every operation has completed and the store holds {:?} with limit {n} (queue {:?})", s.store.keys().collect::<Vec<_>>(), s.order) });
+            }
+        }
+        // a sequential continuation of the history: N fresh stores, the limit must hold after each of them
+        if let Some(n) = c.limit {
+            use crate::vals::Val;
+            let subj = seqx::make_subject::<String>(c);
+            for i in 0..n as u8 {
+                subj.put(&format!("k{}", 5 + i), String::make(5 + i, 0, 8));
+                let now = subj.snap();
+                if now.store.len() > n {
+                    fs.push(TFinding { property: "C18", monitor: format!("{flav}/{pol}/probe-over-limit"), detail: format!("after the threads returned and {} further stores the store holds {:?} with limit {n} (queue {:?})", i + 1, now.store.keys().collect::<Vec<_>>(), now.order) });
+                    fs.push(TFinding { property: "C04", monitor: format!("{flav}/{pol}/over-limit-after-concurrent-operations"), detail: format!("after the threads returned and {} further stores the store holds {:?} with limit {n} (queue {:?})", i + 1, now.store.keys().collect::<Vec<_>>(), now.order) });
+                    break;
+                }
             }
         }
         for e in &events {
@@ -977,6 +1087,25 @@ pub fn drivers_for(property: &str, thorough: bool) -> Vec<Driver> {
                     }
                 }
             }
+            // the engines themselves (harness-owned storage): a lookup of an expired entry racing with stores; the limit
+            // must hold and every stored key must still be known to the queue that the limit is counted on
+            for fl in [Flavour::Global, Flavour::Async] {
+                for pol in [Pol::Fifo, Pol::Lru, Pol::Lfu] {
+                    for lim in [1usize, 2] {
+                        let cfg = Config { flavour: fl, policy: pol, limit: Some(lim), ttl: Some(2), max_memory: None, fw: None, vtype: "String" };
+                        let lbl = |s: &str| format!("L0:{}/{}/limit={lim}/ttl:{}", fl.name(), pol.name(), s);
+                        let expired = vec![SOp::Op(TOp::L0Put(0, 0)), SOp::Tick(3 * NS)];
+                        let mut refill: Vec<TOp> = vec![TOp::L0Put(0, 1)];
+                        for k in 1..=lim as u8 {
+                            refill.push(TOp::L0Put(k, 0));
+                        }
+                        push(lbl("get-expired~put-same then fill"), expired.clone(), vec![vec![TOp::L0Get(0)], refill.clone()], Some(cfg.clone()), false);
+                        if lim == 1 || thorough {
+                            push(lbl("get-expired, put-same~put-other"), expired.clone(), vec![vec![TOp::L0Get(0), TOp::L0Put(0, 1)], vec![TOp::L0Put(1, 0)]], Some(cfg.clone()), false);
+                        }
+                    }
+                }
+            }
         }
         "C12" => {
             // group invalidations racing with each other and with calls: counts stay exact, matching caches end up empty
@@ -1061,6 +1190,19 @@ pub fn drivers_for(property: &str, thorough: bool) -> Vec<Driver> {
                 if thorough {
                     push(format!("{}:same-key x3", f.fn_name), vec![], vec![vec![call(f, 1)], vec![call(f, 1)], vec![call(f, 1)]], None, false);
                     push(format!("{}:two keys crossing", f.fn_name), vec![], vec![vec![call(f, 1), call(f, 2)], vec![call(f, 2), call(f, 1)]], None, false);
+                }
+            }
+        }
+        "C10" | "C11" => {
+            let fam = if property == "C10" { "cache_if" } else { "inval_on" };
+            for f in FUNCS.iter().filter(|f| f.family == fam && f.flavour != Flavour::Thread && f.policy.is_none() && f.limit.is_none() && f.ttl.is_none() && f.mem.is_none() && !f.is_result && (f.has_cache_if != f.has_inval_on)) {
+                // every verdict is a further branch of the exploration
+                push(format!("{}:same-key x2", f.fn_name), vec![], vec![vec![call(f, 1)], vec![call(f, 1)]], None, false);
+                push(format!("{}:resident x2", f.fn_name), vec![SOp::Op(call(f, 1))], vec![vec![call(f, 1)], vec![call(f, 1)]], None, false);
+                push(format!("{}:same-key then again", f.fn_name), vec![], vec![vec![call(f, 1), call(f, 1)], vec![call(f, 1)]], None, false);
+                if thorough {
+                    push(format!("{}:resident, twice + once", f.fn_name), vec![SOp::Op(call(f, 1))], vec![vec![call(f, 1), call(f, 1)], vec![call(f, 1)]], None, false);
+                    push(format!("{}:same-key x3", f.fn_name), vec![], vec![vec![call(f, 1)], vec![call(f, 1)], vec![call(f, 1)]], None, false);
                 }
             }
         }
